@@ -112,3 +112,44 @@ class BatchResponseToJson:
                     and is_absent(member(result, 'result')) and isinstance(member(result, 'error'), dict))
         return (isinstance(result, list) and len(result) == len(self._responses)
                 and all(response_wire(result[i], self._responses[i]) for i in range(len(result))))
+
+
+# ------------------------------------------------------------------------------------------------ construction / parsing
+from spec.jsonrpc import valid_request_obj
+
+
+@contract('pjrpc.common.v20:BatchRequest.__init__', props=['C06', 'C02'])
+class BatchRequestInit:
+    types = {'requests': 'seq[=pjrpc.common.v20:Request]', 'strict': 'bool'}
+    raises_only = ('pjrpc.common.exceptions:IdentityError',)
+    modifies = ('self._strict', 'self._requests', 'self._ids')
+
+    def returns_iff(self, requests, strict):
+        return not (strict and dup_in(set(), [r._id for r in requests]))
+
+    def ensures_fields(self, requests, strict, result):
+        return (same(self._strict, strict) and isinstance(self._requests, list)
+                and seq_same(self._requests, requests))
+
+
+@contract('pjrpc.common.v20:BatchRequest.from_json', props=['C06', 'C02', 'C01'])
+class BatchRequestFromJson:
+    types = {'data': 'json'}
+    pins = {'cls': 'pjrpc.common.v20:BatchRequest'}
+    raises_only = ('pjrpc.common.exceptions:DeserializationError', 'pjrpc.common.exceptions:IdentityError')
+    result_type = '=pjrpc.common.v20:BatchRequest'
+
+    # C06: a batch is rejected with DeserializationError exactly when it is not a non-empty array of valid request
+    # objects; the identity error can only come from an otherwise valid batch (that it comes exactly for
+    # duplicate ids is the assumed semantics of _add_ids, see AddIds / the bounded stand-in)
+    def raises_DeserializationError_iff(cls, data):
+        return not (isinstance(data, list) and len(data) > 0 and all(valid_request_obj(x) for x in data))
+
+    def ensures_valid(cls, data, result):
+        return isinstance(data, list) and len(data) > 0 and all(valid_request_obj(x) for x in data)
+
+    def ensures_on_IdentityError(cls, data, exc):
+        return isinstance(data, list) and len(data) > 0 and all(valid_request_obj(x) for x in data)
+
+    def ensures_elements(cls, data, result):
+        return result._strict == True and len(result._requests) == len(data)
